@@ -1,2 +1,67 @@
-From SV Require Import Simfile.
-Theorem C01_placeholder : True. Proof. exact I. Qed.
+(* C01 - SM simfile: serialize then parse gives back the same simfile.  Statements only. *)
+From Coq Require Import List NArith ZArith Bool.
+From SV Require Import Sx Str Omap Msd Simfile Generated.Tables Proofs.MsdFacts Proofs.SmRoundTrip Proofs.Reach.
+Import ListNotations.
+Open Scope N_scope.
+
+(* wf_sm: unique upper-case keys other than NOTES, chart fields equal to their own strip().
+   safe_sm: no component in msdparser's escaping gaps (known finding K1), judged with the recovery
+   flag the tokenizer really has at that point of the text.  Equality is structural: key order,
+   key-only (None) values, chart order, extra components. *)
+Theorem C01_roundtrip : forall strict sf, wf_sm sf -> safe_sm sf = true -> load_sm strict (ser_sm sf) = LOk sf.
+Proof. exact sm_roundtrip. Qed.
+Print Assumptions C01_roundtrip.
+
+(* serialising the result again reproduces the text exactly *)
+Theorem C01_stable : forall strict sf sf', wf_sm sf -> safe_sm sf = true ->
+  load_sm strict (ser_sm sf) = LOk sf' -> ser_sm sf' = ser_sm sf.
+Proof. intros strict sf sf' Hw Hs H. rewrite (sm_roundtrip strict sf Hw Hs) in H. inversion H. reflexivity. Qed.
+Print Assumptions C01_stable.
+
+(* the text is accepted by the strict parser: exactly its parameters, no stray text *)
+Theorem C01_strict_accepts : forall sf, safe_sm sf = true ->
+  parse true (ser_sm sf) = (params_of (chunks_sm sf), StOk).
+Proof. intros sf H. rewrite ser_sm_chunks. apply parse_chunks. exact H. Qed.
+Print Assumptions C01_strict_accepts.
+
+Theorem C01_detected_sm : forall strict sf, wf_sm sf -> safe_sm sf = true ->
+  (forall k v r, sm_props sf = (k, v) :: r -> str_eqb k kVERSION = false) ->
+  load strict None (ser_sm sf) = LOk (SM sf).
+Proof. exact sm_detected. Qed.
+Print Assumptions C01_detected_sm.
+
+Theorem C01_chart_param_shape : forall sf,
+  params_of (chunks_sm sf) =
+  map (fun kv => prop_comps (fst kv) (snd kv)) (sm_props sf) ++
+  map (fun c => kNOTES :: (pad5 ++ c_stepstype c) :: (pad5 ++ c_description c) :: (pad5 ++ c_difficulty c) ::
+                (pad5 ++ c_meter c) :: (pad5 ++ c_radarvalues c) :: (NL ++ c_notes c ++ NL) :: c_extra c) (sm_charts sf).
+Proof. exact params_of_sm. Qed.
+Print Assumptions C01_chart_param_shape.
+
+Theorem C01_multivalue_unescaped : forall k s, is_multi k = true -> prop_comps k (Some s) = k :: split_on 58 s.
+Proof. exact multivalue_unescaped. Qed.
+Print Assumptions C01_multivalue_unescaped.
+
+Theorem C01_multi_value_keys_are_the_documented_ones :
+  Tables.multi_value_properties = [[65; 84; 84; 65; 67; 75; 83]; [68; 73; 83; 80; 76; 65; 89; 66; 80; 77]].
+Proof. vm_compute. reflexivity. Qed.
+
+(* every simfile reachable from blank() or the empty simfile by well-formed edits is well-formed *)
+Theorem C01_reachable : forall sf ops, wf_sm sf -> Forall op_ok ops -> wf_sm (fold_left apply_sm_op ops sf).
+Proof. exact reachable_wf. Qed.
+Print Assumptions C01_reachable.
+Theorem C01_start_states : wf_sm empty_sm /\ wf_sm blank_sm.
+Proof. split; [exact empty_wf|exact blank_wf]. Qed.
+Print Assumptions C01_start_states.
+
+(* non-vacuity: ':' ';' '\' '//' and line breaks in values, a key-only property, a multi-value
+   property, two charts, one with extra components *)
+Definition ex_sf : smsimfile :=
+  {| sm_props := [([84;73;84;76;69], Some [97;58;98;59;99;92;100;47;47;101;10;102]); ([65], None);
+                  ([68;73;83;80;76;65;89;66;80;77], Some [54;48;58;50;52;48])];
+     sm_charts := [ {| c_stepstype := [120]; c_description := []; c_difficulty := [69]; c_meter := [49]; c_radarvalues := [48];
+                       c_notes := [48;48;10;49;48]; c_extra := [[113]; [58]] |};
+                    {| c_stepstype := []; c_description := []; c_difficulty := []; c_meter := []; c_radarvalues := [];
+                       c_notes := []; c_extra := [] |} ] |}.
+Example C01_example : safe_sm ex_sf = true /\ load_sm true (ser_sm ex_sf) = LOk ex_sf.
+Proof. vm_compute. split; reflexivity. Qed.
